@@ -149,6 +149,20 @@ func (r *rw) stmts(list []ast.Stmt) []ast.Stmt {
 			out = append(out, r.point())
 		}
 		out = append(out, s)
+		// Store configuration: the memtable arena badger allocates (and zeroes) on every Open is 64 MiB by
+		// default, which dominates the cost of creating the thousands of fresh stores the explorer needs.
+		// After the statement that sets ValueLogFileSize, the copy also sets MaxTableSize to 1 MiB.
+		if r.storage && r.fn == "NewStore" {
+			if as, ok := s.(*ast.AssignStmt); ok && len(as.Lhs) == 1 {
+				if se, ok := as.Lhs[0].(*ast.SelectorExpr); ok && se.Sel.Name == "ValueLogFileSize" {
+					out = append(out, &ast.AssignStmt{
+						Lhs: []ast.Expr{&ast.SelectorExpr{X: se.X, Sel: ast.NewIdent("MaxTableSize")}},
+						Tok: token.ASSIGN,
+						Rhs: []ast.Expr{&ast.BasicLit{Kind: token.INT, Value: "1 << 20"}},
+					})
+				}
+			}
+		}
 	}
 	return out
 }
